@@ -34,8 +34,9 @@ let dgrams (t : track) (s : sess) : string =
 let extra (s : sess) : string =
   match s.s_kind with
   | KRtp _ | KWsRtp _ ->
-    Printf.sprintf "%s/%s/%s/%s" (token_of_n s.s_att) (token_of_n s.s_acc) (dgrams TVideo s) (dgrams TAudio s)
-  | _ -> token_of_n s.s_att
+    Printf.sprintf "%s/%s/%s/%s/%s/%s" (token_of_n s.s_att) (token_of_n s.s_acc) (dgrams TVideo s) (dgrams TAudio s)
+      (token_of_n s.s_crd) (token_of_n s.s_rd)
+  | _ -> Printf.sprintf "%s/%s" (token_of_n s.s_att) (token_of_n s.s_crd)
 
 (* per consumer: codes;pre;q;h;state;wire;extra *)
 let report (codes : string list) (st : sess list) : string =
@@ -52,6 +53,35 @@ let report (codes : string list) (st : sess list) : string =
            (token_of_bytes d.c_wire) (extra s)) codes st)
 
 let ops_of (s : string) = if s = "-" then [] else String.split_on_char ',' s
+
+(* inbound ops: i<consumer>.<what>[.<arg>]   (what the player sends; see harness c15in.go)
+     c<ch>.<n>        interleaved packet of n bytes on channel ch          ($ ch len16 data: 4+n bytes read)
+     u<v|a><p|c>.<n>  datagram of n bytes to lal's RTP (p) / RTCP (c) socket of the video / audio track
+     o<cseq>.<resp>   OPTIONS keep-alive; <resp> = the reply lal writes
+     g<cseq>          GET_PARAMETER keep-alive
+     a                rtmp Acknowledgement (16 bytes)      k<ts>  rtmp ping request (18 bytes)
+     b<n>             n bytes on an http-flv / http-ts subscription (RunLoop reads at most 128)
+   followed by the eager dequeue of the writer goroutine *)
+let inbound_events n specs (s : string) =
+  match String.split_on_char '.' s with
+  | [] -> failwith "bad inbound"
+  | is :: what ->
+    let i = int_of_string is in
+    if i >= n then [] else
+    let (k, _) = Stdlib.List.nth specs i in
+    let ws = (match k with KWsRtp _ -> 6 | _ -> 0) in
+    let tail w = String.sub w 1 (String.length w - 1) in
+    let (size, x) = match what with
+      | [w; nn] when w.[0] = 'c' -> let nn = int_of_string nn in (4 + nn, InIlv (n_of_int (int_of_string (tail w)), n_of_int nn))
+      | [w; nn] when w.[0] = 'u' ->
+        (0, InUdp ((if w.[1] = 'v' then TVideo else TAudio), w.[2] = 'c', n_of_int (int_of_string nn)))
+      | [w; resp] when w.[0] = 'o' -> (44 + String.length (tail w) + ws, InOptions (bytes_of_token resp))
+      | [w] when w.[0] = 'g' -> (50 + String.length (tail w) + ws, InRequest)
+      | ["a"] -> (16, InRtmpAck)
+      | [w] when w.[0] = 'k' -> (18, InRtmpPing (n_of_token (tail w)))
+      | [w] when w.[0] = 'b' -> (Stdlib.min 128 (int_of_string (tail w)), InBytes)
+      | _ -> failwith "bad inbound" in
+    [EvIn (nat_of_int i, n_of_int size, x); EvTake (nat_of_int i)]
 
 let run_op = (function
       | cons :: sched :: _ ->
@@ -71,6 +101,7 @@ let run_op = (function
               if i >= n then [] else [EvFail (nat_of_int i, nat_of_int (int_of_string k))]
             | 'd' -> let i = int_of_string (rest op) in if i >= n then [] else [EvClose (nat_of_int i)]
             | 's' -> [EvSweep]
+            | 'i' -> inbound_events n specs (rest op)
             | _ -> failwith "bad op") (ops_of sched)) in
         let (st, obs) = run evs st0 in
         let codes = Array.make n "" in
@@ -111,6 +142,7 @@ let register () =
             | 'd' -> let i = int_of_string (rest op) in
               if i >= n then st else fst (run [EvClose (nat_of_int i)] st)
             | 's' -> fst (run [EvSweep] st)
+            | 'i' -> fst (run (inbound_events n (Stdlib.List.map (fun s -> (s.s_kind, 0)) st) (rest op)) st)
             | _ -> failwith "bad op") st0 (ops_of sched) in
         report (Array.to_list codes) st
       | _ -> "bad-args")
